@@ -54,8 +54,9 @@ def spec_violation(v, lo, hi):
 class InfoCase(Case):
     family = "constraint-info"
 
-    def __init__(self, cid, *, vkinds, lkinds=(), nkinds=(), scaler=False, tol="sym"):
+    def __init__(self, cid, *, vkinds, lkinds=(), nkinds=(), scaler=False, tol="sym", prior=False):
         self.id = cid
+        self.prior = prior
         self.vkinds, self.lkinds, self.nkinds, self.scaler, self.tol = vkinds, lkinds, nkinds, scaler, tol
         N = len(vkinds)
         mixed = any(k in ("upper", "none") for k in vkinds) and any(k in ("lower", "none") for k in vkinds)
@@ -69,7 +70,7 @@ class InfoCase(Case):
         self.cfg0 = make_config(d)
 
     def describe(self):
-        return f"variables={self.vkinds} linear={self.lkinds} nonlinear={self.nkinds} scaler={self.scaler}"
+        return f"variables={self.vkinds} linear={self.lkinds} nonlinear={self.nkinds} scaler={self.scaler} after_another_result={self.prior}"
 
     def inputs(self, env):
         N = len(self.vkinds)
@@ -99,6 +100,13 @@ class InfoCase(Case):
             inject(cfg.nonlinear_constraints, lower_bounds=env.arr(obj(inp["nlo"]), False), upper_bounds=env.arr(obj(inp["nhi"]), False))
         x = env.arr(obj(inp["x"]))
         cons = env.arr(obj(inp["cons"])) if self.nkinds else None
+        if self.prior:
+            # an unrelated result was built just before (another optimization in this process, with every kind of
+            # constraint): nothing of it may show up in this one
+            other = make_config({"variables": {"initial_values": [0.0] * len(self.vkinds), "lower_bounds": -1.0, "upper_bounds": 1.0},
+                                 "linear_constraints": {"coefficients": [[1.0] * len(self.vkinds)], "lower_bounds": [0.0], "upper_bounds": [1.0]},
+                                 "nonlinear_constraints": {"lower_bounds": [0.0], "upper_bounds": [1.0]}})
+            ConstraintInfo.create(other, env.const(np.full(len(self.vkinds), 3.0)), env.const(np.array([7.0])))
         info = ConstraintInfo.create(cfg, x, cons)
         out = {"info": info}
         fr = FunctionResults(
@@ -157,6 +165,10 @@ class InfoCase(Case):
         if self.nkinds:
             group("nonlinear", inp["cons"], inp["nlo"], inp["nhi"], info.nonlinear_lower, info.nonlinear_upper,
                   info.nonlinear_violation, True)
+        if not self.lkinds:
+            props.append(("linear.absent_when_not_configured", SB(info.linear_lower is None and info.linear_upper is None and info.linear_violation is None)))
+        if not self.nkinds:
+            props.append(("nonlinear.absent_when_not_configured", SB(info.nonlinear_lower is None and info.nonlinear_upper is None and info.nonlinear_violation is None)))
         tol = inp["tol"]
         infeasible = Or(*[v > tol for v in viol_all]) if viol_all else SB(False)
         props.append(("feasible_iff_all_within_tolerance", SB(oc.value["violates"]) == infeasible
@@ -289,12 +301,16 @@ def build_cases(tier):
     add(vkinds=("both", "both"), scaler=True)
     add(vkinds=("lower", "both"), scaler=True)
     add(vkinds=("none",))
+    add(vkinds=("both", "lower"), prior=True)
+    add(vkinds=("upper",), lkinds=("both",), prior=True)
     # back-transformation of linear / bound differences through the real configuration path (differential harness of C11)
     from .c11 import TransformCase
     for kw in (dict(N=2, L=1, C=0, lkinds=("both",), var_bounds="none", obj_scaler=False),
                dict(N=2, L=1, C=1, lkinds=("upper",), nkinds=("lower",), fail=True),
                dict(N=2, L=1, C=0, lkinds=("both",), scale_form="none", obj_scaler=False),
-               dict(N=2, L=0, C=1, nkinds=("both",), scale_form="absent", obj_scaler=False)):
+               dict(N=2, L=0, C=1, nkinds=("both",), scale_form="absent", obj_scaler=False),
+               dict(N=2, L=1, C=1, lkinds=("both",), nkinds=("both",)),      # variable and constraint transforms together
+               dict(N=1, L=0, C=1, nkinds=("upper",), ptypes=("absolute",), boundary=("none",))):
         k += 1
         cases.append(TransformCase(f"c13-{k:03d}", **kw))
     for mode in ("functions", "both"):
